@@ -83,6 +83,19 @@ theorem hashIncr_eff (k f : Bytes) (d now : Int) : Eff now db (hashIncr db k f d
     · exact Eff.refl _ _
     · rename_i dd he; exact (hashSetTx_eff he).1
 
+theorem hashIncrFloat_eff (k f : Bytes) (d : Dyadic) (now : Int) :
+    Eff now db (hashIncrFloat db k f d now).db := by
+  unfold hashIncrFloat
+  simp only
+  split
+  · exact Eff.refl _ _
+  · exact Eff.refl _ _
+  · split
+    · split <;> exact Eff.refl _ _
+    · split
+      · exact Eff.refl _ _
+      · rename_i dd he; exact (hashSetTx_eff he).1
+
 theorem hashDelete_eff (k : Bytes) (fs : List Bytes) (now : Int) :
     Eff now db (hashDelete db k fs now).db := by
   unfold hashDelete
